@@ -421,6 +421,96 @@ impl StoreCalls for redis_sim::streaming::LocalFsObjectStore {
 }
 
 /// the same over the repository's local-filesystem object store in a scratch directory (removed afterwards)
+/// Operations of the store-contract part. Objects of two lengths under one key (an overwrite must replace the object,
+/// whichever is longer), a second key, deletion, rename in both directions.
+const STORE_OPS: &[&str] = &["put a LONG", "put a SHORT", "put b MID", "delete a", "rename a b", "rename b a", "put tmp LONG", "rename tmp a"];
+
+thread_local! {
+    static PLAIN_RT: tokio::runtime::Runtime = tokio::runtime::Builder::new_current_thread().enable_all().build().unwrap();
+}
+
+fn block_on_plain<F: std::future::Future>(f: F) -> F::Output {
+    PLAIN_RT.with(|rt| rt.block_on(f))
+}
+
+/// What a client of the store can see: every object's bytes (get), existence, size (head), and the listing.
+fn store_view<S: redis_sim::streaming::ObjectStore>(s: &S) -> String {
+    block_on_plain(async {
+        let mut out = String::new();
+        for k in ["p/a", "p/b", "p/tmp"] {
+            let g = s.get(k).await.map(|b| format!("{}:{}", b.len(), b.iter().map(|x| *x as u64).sum::<u64>())).unwrap_or_else(|e| format!("err({:?})", e.kind()));
+            let e = s.exists(k).await.map(|b| b.to_string()).unwrap_or_else(|_| "err".into());
+            let h = s.head(k).await.map(|m| m.size_bytes.to_string()).unwrap_or_else(|e| format!("err({:?})", e.kind()));
+            out.push_str(&format!("{k}: get={g} exists={e} head={h}; "));
+        }
+        let mut names: Vec<String> = s.list("p/", None).await.map(|l| l.objects.iter().map(|o| format!("{}:{}", o.key, o.size_bytes)).collect()).unwrap_or_else(|_| vec!["list-err".into()]);
+        names.sort();
+        out.push_str(&format!("list={names:?}"));
+        out
+    })
+}
+
+fn store_apply<S: redis_sim::streaming::ObjectStore>(s: &S, op: &str) -> String {
+    let t: Vec<&str> = op.split(' ').collect();
+    let body = |w: &str| -> Vec<u8> {
+        match w {
+            "LONG" => (0..4096u32).map(|i| (i % 251) as u8).collect(),
+            "MID" => (0..700u32).map(|i| (i % 13 + 1) as u8).collect(),
+            _ => b"short-object".to_vec(),
+        }
+    };
+    block_on_plain(async {
+        let r = match t[0] {
+            "put" => s.put(&format!("p/{}", t[1]), &body(t[2])).await,
+            "delete" => s.delete(&format!("p/{}", t[1])).await,
+            _ => s.rename(&format!("p/{}", t[1]), &format!("p/{}", t[2])).await,
+        };
+        match r {
+            Ok(()) => "ok".to_string(),
+            Err(e) => format!("err({:?})", e.kind()),
+        }
+    })
+}
+
+/// One sequence of store operations on the repository's LocalFsObjectStore (scratch directory), on its InMemoryObjectStore
+/// and on the harness's logging store: after every operation all three must show the same objects. The recovery and
+/// crash-consistency arguments of this check are made on the in-memory stores; this is what ties them to the store a server
+/// on a local disk uses.
+fn store_contract_case(seq: &[usize]) -> Result<(), (String, String)> {
+    static SERIAL: AtomicU64 = AtomicU64::new(0);
+    let dir = std::env::temp_dir().join(format!("verif-c12-store-{}-{}", std::process::id(), SERIAL.fetch_add(1, Ordering::Relaxed)));
+    let _ = std::fs::remove_dir_all(&dir);
+    std::fs::create_dir_all(&dir).map_err(|e| ("harness: scratch directory".to_string(), e.to_string()))?;
+    let local = redis_sim::streaming::LocalFsObjectStore::new(dir.clone());
+    let mem = redis_sim::streaming::InMemoryObjectStore::new();
+    let model = VObjStore::new();
+    let mut done: Vec<&str> = Vec::new();
+    let mut res = Ok(());
+    for o in seq {
+        let op = STORE_OPS[*o];
+        let (rl, rm, rv) = (store_apply(&local, op), store_apply(&mem, op), store_apply(&model, op));
+        done.push(op);
+        let (vl, vm, vv) = (store_view(&local), store_view(&mem), store_view(&model));
+        let kinds: Vec<&str> = done.iter().map(|d| d.split(' ').next().unwrap()).collect();
+        if rl != rm || vl != vm {
+            res = Err((
+                format!("store-contract: local-filesystem store differs from the in-memory store after={}", kinds[kinds.len().saturating_sub(2)..].join("+")),
+                format!("[{}]: the last operation replied {rl} on LocalFsObjectStore and {rm} on InMemoryObjectStore; visible afterwards: local-fs {{{vl}}} in-memory {{{vm}}}", done.join("; ")),
+            ));
+            break;
+        }
+        if rv != rm || vv != vm {
+            res = Err((
+                format!("store-contract: harness store differs from the in-memory store after={}", kinds[kinds.len().saturating_sub(2)..].join("+")),
+                format!("[{}]: the last operation replied {rv} on the harness's logging store and {rm} on InMemoryObjectStore; visible afterwards: harness {{{vv}}} in-memory {{{vm}}}", done.join("; ")),
+            ));
+            break;
+        }
+    }
+    let _ = std::fs::remove_dir_all(&dir);
+    res
+}
+
 fn wiring_case_local_fs(kind: &str, n: usize, max_deltas: usize, flush_interval_ms: u64) -> Result<u64, (String, String)> {
     static SERIAL: AtomicU64 = AtomicU64::new(0);
     let dir = std::env::temp_dir().join(format!("verif-c12-{}-{}", std::process::id(), SERIAL.fetch_add(1, Ordering::Relaxed)));
@@ -494,6 +584,20 @@ fn main() {
     vh::quiet_panics();
     if let Some(path) = &args.replay {
         let r = vh::report::load_replay(path);
+        if r["store_contract"] == json!(true) {
+            let seq: Vec<usize> = r["ops"].as_array().unwrap().iter().map(|o| STORE_OPS.iter().position(|x| *x == o.as_str().unwrap()).unwrap()).collect();
+            match store_contract_case(&seq) {
+                Err((sig, detail)) => {
+                    println!("{detail}");
+                    println!("VIOLATION property=C12 replay={} ({sig})", path.display());
+                    std::process::exit(1);
+                }
+                Ok(_) => {
+                    println!("replay: no violation");
+                    std::process::exit(0);
+                }
+            }
+        }
         if r["wiring"] == json!(true) {
             if let Some(fa) = r["fault_at"].as_u64() {
                 match wiring_case_faulted(r["kind"].as_str().unwrap(), r["n"].as_u64().unwrap() as usize, r["max_deltas"].as_u64().unwrap() as usize, fa as usize) {
@@ -653,6 +757,27 @@ fn main() {
         });
         faulted_cases += (k - k0.min(k)) as u64;
     }
+    // the stores themselves: every sequence of <= 3 (thorough 4) operations on the local-filesystem store, the in-memory
+    // store and the harness store, compared after every step
+    let store_seqs: Vec<Vec<usize>> = {
+        let mut out: Vec<Vec<usize>> = Vec::new();
+        let mut cur: Vec<Vec<usize>> = vec![vec![]];
+        for _ in 0..(if thorough { 4 } else { 3 }) {
+            cur = cur.iter().flat_map(|s| (0..STORE_OPS.len()).map(move |o| { let mut x = s.clone(); x.push(o); x })).collect();
+            out.extend(cur.iter().cloned());
+        }
+        out
+    };
+    {
+        let seen = std::sync::Mutex::new(BTreeSet::new());
+        par::par_map(&store_seqs, |_, seq| {
+            if let Err((sig, detail)) = store_contract_case(seq) {
+                if seen.lock().unwrap().insert(sig.clone()) {
+                    rep.violation(sig, detail, json!({"store_contract": true, "ops": seq.iter().map(|o| STORE_OPS[*o]).collect::<Vec<_>>()}));
+                }
+            }
+        });
+    }
     // ... and a few of them over the repository's local-filesystem store
     let local_fs_items: Vec<(&str, usize, usize, u64)> = vec![("distinct-sets", 1, 10, 0), ("distinct-sets", 25, 10, 3_600_000), ("set-del-hset-mix", 40, 10, 3_600_000), ("distinct-sets", 101, 100, 3_600_000)];
     for (kind, n, md, fi) in &local_fs_items {
@@ -688,6 +813,8 @@ fn main() {
         "cases_in_which_a_fault_fired": faults_hit.load(Ordering::Relaxed),
         "crash_images_recovered": images.load(Ordering::Relaxed),
         "write_buffer_cases": wb,
+        "store_contract": {"operation_sequences": store_seqs.len(), "operations": STORE_OPS,
+            "rule": "every sequence of <=3 (thorough 4) operations over {put of a 4 KiB / 12-byte object under one key, put of another key, delete, rename either way, put + rename of a temporary object} on the repository's LocalFsObjectStore (scratch directory), its InMemoryObjectStore and the harness's logging store; after every operation the reply and everything a client can see (get, exists, head, list) must agree between the three"},
         "whole_wiring": {"cases": wiring_items.len(), "cases_with_one_transient_store_failure_before_shutdown": faulted_cases, "cases_over_the_local_filesystem_store": local_fs_items.len(), "store_operations": wiring_ops.load(Ordering::Relaxed),
             "rule": "a real ReplicatedShardedState with the delta sink of StreamingIntegration::start_workers (bridge task, persistence actor, StreamingPersistence over the logging store; compaction worker off) executes 1 .. 1000 commands (distinct SETs at counts around the buffer limits, overwrites, a SET/DEL/HSET/HDEL/APPEND mix, counters) under four write-buffer configurations (max_deltas 10 with flush interval 0, 10, 100, 100000 with a one-hour interval); after WorkerHandles::shutdown() a new node recovers through StreamingIntegration::recover: its replication state must equal the first node's, and TYPE of the keys must agree"},
         "write_buffer_overlapping_flushes": {"schedules_explored": wb_race_execs, "distinct_outcomes": wb_race_outcomes, "all_schedules_of_every_case_explored": wb_race_exhaustive,
